@@ -37,3 +37,33 @@ pub mod prelude {
     pub use crate::sccs::*;
     pub use crate::top_sort::top_sort;
 }
+
+/// Call-outs used by external verification harnesses; compiled only with
+/// the `verif_hooks` feature.
+#[cfg(feature = "verif_hooks")]
+pub mod verif_hooks {
+    use std::sync::RwLock;
+
+    /// A step of ExactSumSweep, reported right before it is performed.
+    #[derive(Debug, Clone, Copy, PartialEq, Eq)]
+    pub enum EssStep<'a> {
+        /// A breadth-first visit from `start`, following the arcs of the
+        /// graph (`forward`) or of its transpose.
+        Visit { forward: bool, start: usize },
+        /// The step bounding the eccentricities from above using one pivot
+        /// per strongly connected component (`pivots[c]` is the pivot of
+        /// component `c`).
+        AllCcUpperBound { pivots: &'a [usize] },
+    }
+
+    /// Hook invoked by ExactSumSweep at the start of each of its steps.
+    pub type EssStepHook = Box<dyn Fn(&EssStep) + Send + Sync>;
+
+    pub static ESS_STEP: RwLock<Option<EssStepHook>> = RwLock::new(None);
+
+    pub fn ess_step(step: &EssStep) {
+        if let Some(hook) = &*ESS_STEP.read().unwrap() {
+            hook(step)
+        }
+    }
+}
